@@ -23,9 +23,9 @@ type Result = std::result::Result<ArrayImpl, ConvertError>;
 impl ArrayImpl {
     pub fn neg(&self) -> Result {
         Ok(match self {
-            A::Int16(a) => A::new_int16(unary_op(a.as_ref(), |v| -v)),
-            A::Int32(a) => A::new_int32(unary_op(a.as_ref(), |v| -v)),
-            A::Int64(a) => A::new_int64(unary_op(a.as_ref(), |v| -v)),
+            A::Int16(a) => A::new_int16(checked_unary_op(a.as_ref(), |v| v.checked_neg())?),
+            A::Int32(a) => A::new_int32(checked_unary_op(a.as_ref(), |v| v.checked_neg())?),
+            A::Int64(a) => A::new_int64(checked_unary_op(a.as_ref(), |v| v.checked_neg())?),
             A::Float64(a) => A::new_float64(unary_op(a.as_ref(), |v| -v)),
             A::Decimal(a) => A::new_decimal(unary_op(a.as_ref(), |v| -v)),
             _ => return Err(ConvertError::NoUnaryOp("-".into(), self.type_string())),
@@ -49,24 +49,28 @@ impl ArrayImpl {
 }
 
 /// A macro to implement arithmetic operations.
+///
+/// Integer and decimal arithmetic is checked: a result that does not fit the result type is an
+/// error, not a wrapped value (and not a panic). NULL rows are skipped, so whatever raw values
+/// lie under them cannot overflow or divide by zero.
 macro_rules! arith {
-    ($name:ident, $op:tt) => {
+    ($name:ident, $op:tt, $checked:ident) => {
         pub fn $name(
             &self,
             other: &Self,
         ) -> Result {
         Ok(match (self, other) {
-            (A::Int16(a), A::Int16(b)) => A::new_int16(binary_op(a.as_ref(), b.as_ref(), |a, b| a $op b)),
+            (A::Int16(a), A::Int16(b)) => A::new_int16(checked_binary_op(a.as_ref(), b.as_ref(), |a, b| a.$checked(*b))?),
 
-            (A::Int16(a), A::Int32(b)) => A::new_int32(binary_op(a.as_ref(), b.as_ref(), |a, b| (*a as i32) $op *b)),
-            (A::Int32(a), A::Int16(b)) => A::new_int32(binary_op(a.as_ref(), b.as_ref(), |a, b| *a $op (*b as i32))),
-            (A::Int32(a), A::Int32(b)) => A::new_int32(binary_op(a.as_ref(), b.as_ref(), |a, b| a $op b)),
+            (A::Int16(a), A::Int32(b)) => A::new_int32(checked_binary_op(a.as_ref(), b.as_ref(), |a, b| (*a as i32).$checked(*b))?),
+            (A::Int32(a), A::Int16(b)) => A::new_int32(checked_binary_op(a.as_ref(), b.as_ref(), |a, b| a.$checked(*b as i32))?),
+            (A::Int32(a), A::Int32(b)) => A::new_int32(checked_binary_op(a.as_ref(), b.as_ref(), |a, b| a.$checked(*b))?),
 
-            (A::Int16(a), A::Int64(b)) => A::new_int64(binary_op(a.as_ref(), b.as_ref(), |a, b| (*a as i64) $op *b)),
-            (A::Int32(a), A::Int64(b)) => A::new_int64(binary_op(a.as_ref(), b.as_ref(), |a, b| (*a as i64) $op *b)),
-            (A::Int64(a), A::Int16(b)) => A::new_int64(binary_op(a.as_ref(), b.as_ref(), |a, b| *a $op (*b as i64))),
-            (A::Int64(a), A::Int32(b)) => A::new_int64(binary_op(a.as_ref(), b.as_ref(), |a, b| *a $op (*b as i64))),
-            (A::Int64(a), A::Int64(b)) => A::new_int64(binary_op(a.as_ref(), b.as_ref(), |a, b| a $op b)),
+            (A::Int16(a), A::Int64(b)) => A::new_int64(checked_binary_op(a.as_ref(), b.as_ref(), |a, b| (*a as i64).$checked(*b))?),
+            (A::Int32(a), A::Int64(b)) => A::new_int64(checked_binary_op(a.as_ref(), b.as_ref(), |a, b| (*a as i64).$checked(*b))?),
+            (A::Int64(a), A::Int16(b)) => A::new_int64(checked_binary_op(a.as_ref(), b.as_ref(), |a, b| a.$checked(*b as i64))?),
+            (A::Int64(a), A::Int32(b)) => A::new_int64(checked_binary_op(a.as_ref(), b.as_ref(), |a, b| a.$checked(*b as i64))?),
+            (A::Int64(a), A::Int64(b)) => A::new_int64(checked_binary_op(a.as_ref(), b.as_ref(), |a, b| a.$checked(*b))?),
 
             (A::Int16(a), A::Float64(b)) => A::new_float64(binary_op(a.as_ref(), b.as_ref(), |a, b| F64::from(*a as f64) $op *b)),
             (A::Int32(a), A::Float64(b)) => A::new_float64(binary_op(a.as_ref(), b.as_ref(), |a, b| F64::from(*a as f64) $op *b)),
@@ -76,15 +80,15 @@ macro_rules! arith {
             (A::Float64(a), A::Int64(b)) => A::new_float64(binary_op(a.as_ref(), b.as_ref(), |a, b| *a $op F64::from(*b as f64))),
             (A::Float64(a), A::Float64(b)) => A::new_float64(binary_op(a.as_ref(), b.as_ref(), |a, b| *a $op *b)),
 
-            (A::Int16(a), A::Decimal(b)) => A::new_decimal(binary_op(a.as_ref(), b.as_ref(), |a, b| Decimal::from(*a) $op *b)),
-            (A::Int32(a), A::Decimal(b)) => A::new_decimal(binary_op(a.as_ref(), b.as_ref(), |a, b| Decimal::from(*a) $op *b)),
-            (A::Int64(a), A::Decimal(b)) => A::new_decimal(binary_op(a.as_ref(), b.as_ref(), |a, b| Decimal::from(*a) $op *b)),
-            (A::Float64(a), A::Decimal(b)) => A::new_decimal(binary_op(a.as_ref(), b.as_ref(), |a, b| Decimal::from_f64_retain(a.0).unwrap() $op *b)),
-            (A::Decimal(a), A::Int16(b)) => A::new_decimal(binary_op(a.as_ref(), b.as_ref(), |a, b| *a $op Decimal::from(*b))),
-            (A::Decimal(a), A::Int32(b)) => A::new_decimal(binary_op(a.as_ref(), b.as_ref(), |a, b| *a $op Decimal::from(*b))),
-            (A::Decimal(a), A::Int64(b)) => A::new_decimal(binary_op(a.as_ref(), b.as_ref(), |a, b| *a $op Decimal::from(*b))),
-            (A::Decimal(a), A::Float64(b)) => A::new_decimal(binary_op(a.as_ref(), b.as_ref(), |a, b| *a $op Decimal::from_f64_retain(b.0).unwrap())),
-            (A::Decimal(a), A::Decimal(b)) => A::new_decimal(binary_op(a.as_ref(), b.as_ref(), |a, b| a $op b)),
+            (A::Int16(a), A::Decimal(b)) => A::new_decimal(checked_binary_op(a.as_ref(), b.as_ref(), |a, b| Decimal::from(*a).$checked(*b))?),
+            (A::Int32(a), A::Decimal(b)) => A::new_decimal(checked_binary_op(a.as_ref(), b.as_ref(), |a, b| Decimal::from(*a).$checked(*b))?),
+            (A::Int64(a), A::Decimal(b)) => A::new_decimal(checked_binary_op(a.as_ref(), b.as_ref(), |a, b| Decimal::from(*a).$checked(*b))?),
+            (A::Float64(a), A::Decimal(b)) => A::new_decimal(checked_binary_op(a.as_ref(), b.as_ref(), |a, b| Decimal::from_f64_retain(a.0)?.$checked(*b))?),
+            (A::Decimal(a), A::Int16(b)) => A::new_decimal(checked_binary_op(a.as_ref(), b.as_ref(), |a, b| a.$checked(Decimal::from(*b)))?),
+            (A::Decimal(a), A::Int32(b)) => A::new_decimal(checked_binary_op(a.as_ref(), b.as_ref(), |a, b| a.$checked(Decimal::from(*b)))?),
+            (A::Decimal(a), A::Int64(b)) => A::new_decimal(checked_binary_op(a.as_ref(), b.as_ref(), |a, b| a.$checked(Decimal::from(*b)))?),
+            (A::Decimal(a), A::Float64(b)) => A::new_decimal(checked_binary_op(a.as_ref(), b.as_ref(), |a, b| a.$checked(Decimal::from_f64_retain(b.0)?))?),
+            (A::Decimal(a), A::Decimal(b)) => A::new_decimal(checked_binary_op(a.as_ref(), b.as_ref(), |a, b| a.$checked(*b))?),
 
             (A::Date(a), A::Interval(b)) => A::new_date(binary_op(a.as_ref(), b.as_ref(), |a, b| *a $op *b)),
 
@@ -145,11 +149,11 @@ macro_rules! cmp {
 }
 
 impl ArrayImpl {
-    arith!(add, +);
-    arith!(sub, -);
-    arith!(mul, *);
-    arith!(unchecked_div, /);
-    arith!(unchecked_rem, %);
+    arith!(add, +, checked_add);
+    arith!(sub, -, checked_sub);
+    arith!(mul, *, checked_mul);
+    arith!(unchecked_div, /, checked_div);
+    arith!(unchecked_rem, %, checked_rem);
     cmp!(eq, ==);
     cmp!(ne, !=);
     cmp!(gt,  >);
@@ -204,7 +208,9 @@ impl ArrayImpl {
                 other.type_string(),
             ));
         };
-        let mut c: BoolArray = binary_op(a.as_ref(), b.as_ref(), |a, b| *a || *b);
+        // (the raw value under a NULL is arbitrary: only valid TRUEs make the result TRUE)
+        let (a, b) = (clear_null(a.as_ref().clone()), clear_null(b.as_ref().clone()));
+        let mut c: BoolArray = binary_op(&a, &b, |a, b| *a || *b);
         let bitmap = c.to_raw_bitvec();
         c.get_valid_bitmap_mut().or(&bitmap);
         Ok(A::new_bool(c))
@@ -839,6 +845,47 @@ where
     let it = a.raw_iter().zip(b.raw_iter()).map(|(a, b)| f(a, b));
     let valid = a.get_valid_bitmap().and(b.get_valid_bitmap());
     O::from_data(it, valid)
+}
+
+/// Applies a checked operation to the rows where both inputs are non-NULL.
+/// `None` (overflow, out of range) fails the whole operation.
+fn checked_binary_op<A, B, T, F>(a: &A, b: &B, f: F) -> std::result::Result<PrimitiveArray<T>, ConvertError>
+where
+    A: ArrayValidExt,
+    B: ArrayValidExt,
+    T: NativeType,
+    F: Fn(&A::Item, &B::Item) -> Option<T>,
+{
+    assert_eq!(a.len(), b.len());
+    let valid = a.get_valid_bitmap().and(b.get_valid_bitmap());
+    let mut data = Vec::with_capacity(a.len());
+    for ((a, b), valid) in a.raw_iter().zip(b.raw_iter()).zip(valid.iter().by_vals()) {
+        data.push(if valid {
+            f(a, b).ok_or(ConvertError::OutOfRange)?
+        } else {
+            T::default()
+        });
+    }
+    Ok(PrimitiveArray::from_data(data.into_iter(), valid))
+}
+
+/// Applies a checked operation to the non-NULL rows.
+fn checked_unary_op<A, T, F>(a: &A, f: F) -> std::result::Result<PrimitiveArray<T>, ConvertError>
+where
+    A: ArrayValidExt,
+    T: NativeType,
+    F: Fn(&A::Item) -> Option<T>,
+{
+    let valid = a.get_valid_bitmap().clone();
+    let mut data = Vec::with_capacity(a.len());
+    for (a, valid) in a.raw_iter().zip(valid.iter().by_vals()) {
+        data.push(if valid {
+            f(a).ok_or(ConvertError::OutOfRange)?
+        } else {
+            T::default()
+        });
+    }
+    Ok(PrimitiveArray::from_data(data.into_iter(), valid))
 }
 
 fn unary_op<A, O, F, V>(a: &A, f: F) -> O
